@@ -279,3 +279,130 @@ Definition c_u : cls := {| c_mod := [117]; c_qual := [[85]]; c_kind := KReg; c_i
 Definition w_sample : world := [c_a; c_b; c_u].
 Definition v_sample : value jv :=
   VList [VObj c_a (JInt 1) [VObj c_b (JStr [233]) [VList []; VNone]; VObj c_u (JStr [48]) []]; VInt (2 ^ 70); VFloat 9218868437227405312; VList [VList []]].
+
+(* ---- the correspondence instance: on F (and payloads without dicts) the model computes exactly the Spec's answer,
+   tags included -- so a case inside F where implementation = Spec but model differs cannot occur *)
+Fixpoint jv_plain (j : jv) : bool :=
+  match j with JObj _ => false | JArr l => forallb jv_plain l | _ => true end.
+Fixpoint plain_payloads (v : value jv) : bool :=
+  match v with
+  | VList l => forallb plain_payloads l
+  | VObj _ own kids => jv_plain own && forallb plain_payloads kids
+  | _ => true
+  end.
+
+Lemma jv_plain_no_tags j : jv_plain j = true -> jv_tags j = [].
+Proof.
+  induction j as [| | | | |l IH|d IH] using jv_ind'; simpl; try reflexivity; [|discriminate].
+  induction IH as [|x l Hx _ IHl]; simpl; [reflexivity|].
+  rewrite andb_true_iff. intros [H1 H2]. rewrite (Hx H1), (IHl H2). reflexivity.
+Qed.
+
+Lemma map_flat_map {A B C} (f : B -> C) (g : A -> list B) l : map f (flat_map g l) = flat_map (fun x => map f (g x)) l.
+Proof. induction l as [|x l IH]; simpl; [reflexivity|]. rewrite map_app, IH. reflexivity. Qed.
+
+Lemma sequence_cons_inv {J A} (x : outcome J A) r js :
+  sequence (x :: r) = Return js -> exists a l', x = Return a /\ sequence r = Return l' /\ js = a :: l'.
+Proof.
+  simpl. destruct x as [a| |]; try discriminate. destruct (sequence r) as [l'| |]; try discriminate.
+  intros H. injection H as <-. eauto.
+Qed.
+
+Section SampleTags.
+  Variable w : world.
+  Notation tj := (to_json jv s_ufields s_rser).
+  Definition tags_ok (v : value jv) : Prop :=
+    ok jv w v -> plain_payloads v = true -> forall j, tj v = Return j -> jv_tags j = expected_tags v.
+
+  Lemma tags_list l : Forall tags_ok l -> Forall (ok jv w) l -> forallb plain_payloads l = true ->
+    forall js, sequence (map tj l) = Return js -> flat_map jv_tags js = flat_map (fun v => expected_tags v) l.
+  Proof.
+    induction 1 as [|v l Hv _ IH]; intros Hok Hp js Hs.
+    - simpl in Hs. injection Hs as <-. reflexivity.
+    - inversion Hok; subst. simpl in Hp. apply andb_true_iff in Hp as [Hp1 Hp2].
+      simpl map in Hs. apply sequence_cons_inv in Hs as [a [l' [Ha [Hl ->]]]].
+      simpl. rewrite (Hv H1 Hp1 a Ha), (IH H2 Hp2 l' Hl). reflexivity.
+  Qed.
+
+  Lemma ok_kids c own kids : ok jv w (VObj c own kids) -> c_kind c = KSer -> Forall (ok jv w) kids.
+  Proof.
+    intros [Hg Ho] Ek. simpl in Hg, Ho. rewrite Ek in Hg. inversion Ho as [|c0 os Hc Hos]; subst.
+    clear - Hg Hos. induction kids as [|x l IHl]; simpl in *; [constructor|].
+    apply andb_true_iff in Hg as [Hx Hl]. apply Forall_app in Hos as [Ho1 Ho2].
+    constructor; [split; assumption | apply IHl; assumption].
+  Qed.
+
+  Lemma sample_tags : forall v, tags_ok v.
+  Proof.
+    induction v as [|b|z|f|s|l IH|c own kids IH] using value_ind'; intros Hok Hp j Hj;
+      try (simpl in Hj; injection Hj as <-; reflexivity).
+    - (* list *)
+      destruct Hok as [Hg Ho].
+      change (tj (VList l)) with (lift_arr (sequence (map tj l))) in Hj.
+      destruct (sequence (map tj l)) as [js| |] eqn:Es; try discriminate. injection Hj as <-.
+      simpl jv_tags. rewrite (tags_list l IH (ok_list jv w l Hg Ho) Hp js Es).
+      unfold expected_tags. simpl objects. rewrite map_flat_map. reflexivity.
+    - (* object *)
+      pose proof Hok as [Hg Ho]. simpl in Hg, Ho. inversion Ho as [|c0 os Hc Hos]; subst.
+      assert (Hml : module_level c = true).
+      { unfold cls_ok in Hc. rewrite !andb_true_iff in Hc. tauto. }
+      simpl in Hp. apply andb_true_iff in Hp as [Hpo Hpk].
+      pose proof (jv_plain_no_tags own Hpo) as Hown.
+      unfold expected_tags. simpl objects. simpl map. rewrite map_flat_map.
+      rewrite <- (full_name_qualified c Hml).
+      destruct (c_kind c) eqn:Ek; [| |discriminate].
+      + assert (Hd : dispatch jv (VObj c own kids) = Return TJ_CallMethod).
+        { unfold dispatch, to_json_dispatch. simpl. rewrite Ek. reflexivity. }
+        simpl in Hj. rewrite Hd in Hj.
+        destruct (sequence (map tj kids)) as [kj| |] eqn:Es; try discriminate. injection Hj as <-.
+        pose proof (tags_list kids IH (ok_kids c own kids Hok Ek) Hpk kj Es) as Hk.
+        unfold s_ufields. destruct (Z.even (c_id c)); simpl; rewrite ?str_eqb_refl; simpl;
+          rewrite Hown, ?app_nil_r; simpl; rewrite Hk; reflexivity.
+      + destruct kids as [|k ks]; [|discriminate].
+        assert (Hd : dispatch jv (VObj c own []) = Return (TJ_CallSer c)).
+        { unfold dispatch, to_json_dispatch. simpl. rewrite Ek. reflexivity. }
+        simpl in Hj. rewrite Hd in Hj. injection Hj as <-.
+        unfold s_rser. simpl. rewrite ?str_eqb_refl. simpl. rewrite Hown. reflexivity.
+  Qed.
+
+  Theorem sample_model_is_spec v :
+    value_ok w v = true -> plain_payloads v = true -> model_round_trip w v = spec_round_trip v.
+  Proof.
+    intros Hv Hp. pose proof Hv as Hv'. unfold value_ok in Hv'. rewrite andb_true_iff, forallb_forall in Hv'.
+    destruct Hv' as [Hg Ho]. assert (Hok : ok jv w v) by (split; [exact Hg | apply Forall_forall; exact Ho]).
+    destruct (round_trip_value jv s_ufields s_usplit s_rser s_rdeser sample_user_round_trip sample_registered_round_trip w v Hok)
+      as [j [Hj Hr]].
+    unfold model_round_trip. rewrite Hj. unfold json_text.
+    rewrite (Hr (S (S (value_depth v)))) by lia.
+    unfold outcome_value_sx, spec_round_trip. rewrite (sample_tags v Hok Hp j Hj). reflexivity.
+  Qed.
+End SampleTags.
+
+(* ---- F in words: in a world where no two module-level classes of one module share a __name__, a class satisfies
+   [cls_ok] as soon as it is defined there at module level under a well-formed name *)
+Lemma strs_eqb_refl a : strs_eqb a a = true.
+Proof. induction a as [|x a IH]; simpl; [reflexivity|]. now rewrite str_eqb_refl, IH. Qed.
+Lemma cls_eqb_refl c : cls_eqb c c = true.
+Proof. unfold cls_eqb. rewrite str_eqb_refl, strs_eqb_refl, Z.eqb_refl. destruct (c_kind c); reflexivity. Qed.
+
+Definition unique_names (w : world) : Prop :=
+  forall c c', In c w -> In c' w -> module_level c = true -> module_level c' = true ->
+    c_mod c = c_mod c' -> cname c = cname c' -> c = c'.
+
+Lemma lookup_defined w c :
+  unique_names w -> In c w -> module_level c = true -> lookup w (c_mod c) (cname c) = Some c.
+Proof.
+  intros Hu Hin Hml. unfold lookup.
+  destruct (find _ w) as [c'|] eqn:E.
+  - apply find_some in E as [Hin' Hp]. rewrite !andb_true_iff in Hp. destruct Hp as [[Hml' Hm] Hn].
+    apply str_eqb_eq in Hm. apply str_eqb_eq in Hn. f_equal. symmetry. apply (Hu c c'); auto.
+  - exfalso. pose proof (find_none _ _ E c Hin) as Hn. simpl in Hn.
+    rewrite Hml, !str_eqb_refl in Hn. discriminate.
+Qed.
+
+Lemma cls_ok_defined w c :
+  unique_names w -> In c w -> module_level c = true -> valid_module_name (c_mod c) = true -> no_sep DOT (cname c) = true ->
+  cls_ok w c = true.
+Proof.
+  intros Hu Hin Hml Hv Hn. unfold cls_ok. rewrite Hml, Hv, Hn, (lookup_defined w c Hu Hin Hml), cls_eqb_refl. reflexivity.
+Qed.
